@@ -33,6 +33,7 @@ import (
 
 // World bundles a chain with the naming universe and program table of one trace.
 type World struct {
+	NContracts int // contracts c0.. of the menu
 	C   *chain.Chain
 	U   *prog.Universe
 	T   *prog.Table
@@ -65,10 +66,22 @@ var (
 
 func selfdestruct(to string) prog.Op { return prog.Op{Op: "SELFDESTRUCT", To: to} }
 
+// cpcTransfer / cpcBurn: calls into the ERC-20 precompile of the EVM denomination ("pc" in the universe).
+func cpcTransfer(u *prog.Universe, to string, amt int64) prog.Op {
+	data := append([]byte{0xa9, 0x05, 0x9c, 0xbb}, common.LeftPadBytes(u.A(to).Bytes(), 32)...)
+	data = append(data, common.LeftPadBytes(big.NewInt(amt).Bytes(), 32)...)
+	return prog.Op{Op: "CPC", Kind: "CALL", To: "pc", Method: "transfer", Args: []interface{}{to, amt}, Data: data}
+}
+
+func cpcBurn(amt int64) prog.Op {
+	data := append([]byte{0x42, 0x96, 0x6c, 0x68}, common.LeftPadBytes(big.NewInt(amt).Bytes(), 32)...)
+	return prog.Op{Op: "CPC", Kind: "CALL", To: "pc", Method: "burn", Args: []interface{}{amt}, Data: data}
+}
+
 // StdMenu defines the standard contracts of the EthTx family of drivers.
 // Returns genesis contracts; names c0..c6.
 func StdMenu(u *prog.Universe, t *prog.Table, pfx string) []chain.GenContract {
-	for i := 0; i < 8; i++ {
+	for i := 0; i < 9; i++ {
 		u.Add(fmt.Sprintf("c%d", i), contractAddr(i))
 	}
 	// constructor + runtime for creations
@@ -164,6 +177,19 @@ func StdMenu(u *prog.Universe, t *prog.Table, pfx string) []chain.GenContract {
 			"e1": {selfdestruct("a3")},
 			"e2": {selfdestruct("c7")},
 		},
+	}
+	if _, ok := u.ByName["pc"]; ok {
+		// c8: user of the ERC-20 precompile of the EVM denomination (bank moves and burns inside call frames)
+		menu = append(menu, map[string][]prog.Op{
+			"e0": {cpcTransfer(u, "a1", 5)},
+			"e1": {cpcTransfer(u, "a2", 3), opRevert},
+			"e2": {call("CALL", "c8", "e0", 0), opRevert},
+			"e3": {cpcBurn(4), logN(1)},
+			"e4": {cpcTransfer(u, "a1", 1000000000), sstore("s0", 1)},
+			"e5": {call("CALL", "c8", "e1", 0), cpcTransfer(u, "x1", 2), cpcBurn(1)},
+			"e6": {sstore("s1", 1), call("CALL", "c8", "e3", 0), opInvalid},
+			"e7": {cpcTransfer(u, "c8", 7), cpcTransfer(u, "a3", 0)},
+		})
 	}
 	var out []chain.GenContract
 	for i, entries := range menu {
@@ -583,13 +609,30 @@ func NewEthWorld(tbl *prog.Table, r *rand.Rand, tid string, tweak func(*chain.Op
 	o.ExtraAccts = append(o.ExtraAccts, authtypes.NewBaseAccount(freshAddr(100).Bytes(), nil, 0, 0))
 	o.ExtraAccts = append(o.ExtraAccts, newVesting(freshAddr(101), chain.T0+1_000_000))
 	o.ExtraAccts = append(o.ExtraAccts, newVesting(freshAddr(102), chain.T0+7))
-	pfx := tid + "_"
-	o.Contracts = StdMenu(u, tbl, pfx)
 	if tweak != nil {
 		tweak(&o)
 	}
+	if r.Intn(3) == 0 {
+		o.CpcDeployErc20Native = true
+	}
+	if o.CpcDeployErc20Native {
+		u.Add("pc", chain.NativeErc20Addr())
+	}
+	pfx := tid + "_"
+	o.Contracts = append(StdMenu(u, tbl, pfx), o.Contracts...)
 	c := chain.New(o)
-	return &World{C: c, U: u, T: tbl, Tid: tid, R: r}, o
+	return &World{C: c, U: u, T: tbl, Tid: tid, R: r, NContracts: len(o.Contracts) - nExtra(o.Contracts)}, o
+}
+
+// nExtra counts contracts that are not part of the menu (added by a caller's tweak).
+func nExtra(cs []chain.GenContract) int {
+	n := 0
+	for _, c := range cs {
+		if string(c.Addr.Bytes()[:18]) != string(contractAddr(0).Bytes()[:18]) {
+			n++
+		}
+	}
+	return n
 }
 
 // GenEthSpec / GenCosmosSend are the transaction generators of the EthTx histories, for other drivers.
@@ -836,7 +879,7 @@ func (w *World) genEthSpec(nextNonce map[string]uint64, baseFee int64, created *
 		s.Value = int64(r.Intn(3))
 		s.Gas = pick(r, uint64(53000), 100000, 200000, 300000)
 	default:
-		ci := r.Intn(8)
+		ci := r.Intn(w.NContracts)
 		s.To = fmt.Sprintf("c%d", ci)
 		ents := sortedKeys(w.T.Ops[w.Tid+"_"+s.To])
 		s.Sel = pick(r, ents...)
